@@ -246,7 +246,7 @@ fn dispatch_product(ctx: &Ctx, rep: &mut Report) {
     }
     let p32 = vec!["7"; 32].join(";");
     let shapes: Vec<String> =
-        vec!["".into(), "0".into(), "1".into(), "65535".into(), ";".into(), ";5".into(), "5;".into(), p32, "1:2".into(), "38:5:9;4".into(), "2;3;8".into(), "00012".into()];
+        vec!["".into(), "0".into(), "1".into(), "65535".into(), ";".into(), ";5".into(), "5;".into(), p32, "1:2".into(), "38:5:9;4".into(), "2;3;8".into(), "00012".into(), "65534".into(), "65530;65529".into(), "6553;6554".into(), "32768;9".into(), "0065535".into()];
     let mut seqs: Vec<String> = Vec::new();
     for intro in ["\x1b[", "\u{9b}"] {
         for pre in &prefixes {
